@@ -35,12 +35,13 @@ func TestMain(m *testing.M) { os.Exit(vlib.Main(m)) }
 
 type Case struct {
 	W           crashlib.Workload `json:"workload"`
-	Followup    []crashlib.WTxn   `json:"followup"`       // run after recovery (C03 d)
-	FollowEvery int               `json:"followup_every"` // follow-up on every n-th image
-	NestedAt    []int             `json:"nested_at"`      // per-mille positions of images whose recovery is itself crashed at every operation
-	KillAt      []int             `json:"kill_at"`        // per-mille positions re-run with a real SIGKILL
-	CutSeeds    []int             `json:"cut_seeds"`      // C14: drawn cut positions (per-mille of the unsynced tail)
-	Huge        bool              `json:"huge_record"`    // size class: one value of several MiB
+	Followup    []crashlib.WTxn   `json:"followup"`               // run after recovery (C03 d)
+	FollowEvery int               `json:"followup_every"`         // follow-up on every n-th image
+	NestedAt    []int             `json:"nested_at"`              // per-mille positions of images whose recovery is itself crashed at every operation
+	KillAt      []int             `json:"kill_at"`                // per-mille positions re-run with a real SIGKILL
+	CutSeeds    []int             `json:"cut_seeds"`              // C14: drawn cut positions (per-mille of the unsynced tail)
+	Sweep       bool              `json:"length_sweep,omitempty"` // size class: consecutive value lengths
+	Huge        bool              `json:"huge_record"`            // size class: one value of several MiB
 }
 
 func genCfg(t *rapid.T) crashlib.Cfg {
@@ -80,6 +81,10 @@ func genTxns(t *rapid.T, nk, n, firstNo int, exists map[int]bool, multi bool, la
 			o := crashlib.WOp{K: k, Del: del}
 			if !del {
 				o.VLen = rapid.SampledFrom(vlens).Draw(t, label+"vlen")
+				if rapid.IntRange(0, 2).Draw(t, label+"jitter") == 0 {
+					// any length, not only the classes: record sizes take every residue
+					o.VLen = rapid.IntRange(0, 800).Draw(t, label+"vlenAny")
+				}
 			}
 			tx.Ops = append(tx.Ops, o)
 		}
@@ -124,6 +129,22 @@ func genCase(t *rapid.T, multi bool) Case {
 			exists[k] = v != nil
 		}
 		c.Huge = true
+	} else if !multi && rapid.IntRange(0, 7).Draw(t, "lengthSweep") == 0 {
+		// size class: single-key transactions whose value lengths sweep a range of consecutive
+		// lengths, so that the sizes of the wal records (and of the blocks built from them) pass
+		// through every residue modulo 256 / every alignment within a few workloads
+		n = rapid.IntRange(32, 64).Draw(t, "sweepN")
+		start := rapid.IntRange(150, 600).Draw(t, "sweepStart")
+		k := rapid.IntRange(0, nk-1).Draw(t, "sweepKey")
+		same := rapid.Bool().Draw(t, "sweepSameKey")
+		for i := 0; i < n; i++ {
+			if !same {
+				k = rapid.IntRange(0, nk-1).Draw(t, "sweepK")
+			}
+			c.W.Txns = append(c.W.Txns, crashlib.WTxn{No: 1 + i, Ops: []crashlib.WOp{{K: k, VLen: start + i}}})
+			exists[k] = true
+		}
+		c.Sweep = true
 	} else {
 		c.W.Txns = genTxns(t, nk, n, 1, exists, multi, "w")
 	}
@@ -344,6 +365,7 @@ type Replay struct {
 	Cut      string            `json:"cut,omitempty"`
 	Mode     string            `json:"mode"` // C03 | C04 | C14
 	Origin   string            `json:"origin"`
+	Again    int               `json:"again,omitempty"` // abandon the recovered store and Open again, this many times
 }
 
 type replayRun struct {
@@ -377,6 +399,7 @@ type recoverJob struct {
 	AckPath  string            `json:"ack_path,omitempty"`
 	SnapDir  string            `json:"snap_dir,omitempty"`
 	MaxSnaps int               `json:"max_snaps,omitempty"`
+	Again    int               `json:"again,omitempty"`
 }
 
 type recoverResult struct {
@@ -389,6 +412,7 @@ type recoverResult struct {
 	Panic    string         `json:"panic"`
 	Where    string         `json:"where"`
 	Ops      int            `json:"ops"`
+	Again    int            `json:"again"`
 	// filled by the parent
 	died   bool
 	hung   bool
@@ -490,10 +514,18 @@ func judge(res *recoverResult, keysOf []vlib.Str, runs []crashlib.Run, followup 
 	if !res.Opened || res.Reads == nil {
 		return &finding{"open_failed_after_crash", fmt.Sprintf("Open on the crash image did not succeed (during %s): %s", res.Where, tail(res.Panic, 1500))}
 	}
+	if res.Panic != "" && (res.Where == "open_again" || res.Where == "read_again") {
+		return &finding{"open_failed_after_crash", fmt.Sprintf("the image was recovered, the handle given up without a commit or Close (a process dying right after recovery), and Open number %d on the directory did not succeed: %s", res.Again+2, tail(res.Panic, 1500))}
+	}
+	again := ""
+	if res.Again > 0 {
+		classes["recovered_again_without_commit"] = true
+		again = fmt.Sprintf(" [state after %d recoveries in a row, the handle given up after each without a commit or Close]", res.Again+1)
+	}
 	al, inflight := crashlib.Expect(len(keysOf), runs)
 	got := crashlib.Reads(res.Reads)
 	if bad := crashlib.Judge(al, got, keysOf); len(bad) > 0 {
-		return &finding{"acknowledged_write_lost_or_wrong", strings.Join(bad, "; ")}
+		return &finding{"acknowledged_write_lost_or_wrong", strings.Join(bad, "; ") + again}
 	}
 	if len(inflight) > 0 {
 		classes["inflight_txn_at_crash"] = true
@@ -684,6 +716,9 @@ func (p *pipeline) runCase(c Case, fatal func(string, ...any)) {
 		pl.job.ID = id
 		pl.job.WorkDir = filepath.Join(base, "work")
 		pl.job.Workload.Cfg, pl.job.Workload.Keys = c.W.Cfg, c.W.Keys
+		if !pl.nested && !c.Huge && id%3 == 0 {
+			pl.job.Again = 1 + id%2
+		}
 		plan = append(plan, pl)
 		return pl
 	}
@@ -695,6 +730,9 @@ func (p *pipeline) runCase(c Case, fatal func(string, ...any)) {
 		cls := map[string]bool{"crash_before_" + im.meta.Op + "_" + fileClass(im.meta.Path): true, "phase_" + im.meta.Phase: true}
 		if c.Huge {
 			cls["workload_with_multi_MiB_value"] = true
+		}
+		if c.Sweep {
+			cls["workload_with_length_sweep"] = true
 		}
 		for n := range im.meta.Files {
 			if fileClass(n) == "wal" {
@@ -768,7 +806,7 @@ func (p *pipeline) runCase(c Case, fatal func(string, ...any)) {
 		if pl.job.Cuts != nil {
 			files = applyCuts(files, pl.job.Cuts)
 		}
-		return Replay{Keys: c.W.Keys, Cfg: c.W.Cfg, Files: files, Followup: pl.followup, Meta: meta, Cut: pl.cut, Mode: p.prop, Origin: origin, Runs: replayRuns(pl.runs)}
+		return Replay{Keys: c.W.Keys, Cfg: c.W.Cfg, Files: files, Followup: pl.followup, Meta: meta, Cut: pl.cut, Mode: p.prop, Origin: origin, Runs: replayRuns(pl.runs), Again: pl.job.Again}
 	}
 	for _, pl := range plan {
 		r := results[pl.job.ID]
@@ -799,7 +837,7 @@ func (p *pipeline) runCase(c Case, fatal func(string, ...any)) {
 		if isCut {
 			// C14's business only if the uncut image is fine
 			un := &planned{im: pl.im, runs: pl.runs, cls: map[string]bool{}}
-			un.job = recoverJob{ID: 1, SrcDir: pl.im.dir, WorkDir: filepath.Join(base, "work"), Workload: crashlib.Workload{Cfg: c.W.Cfg, Keys: c.W.Keys}}
+			un.job = recoverJob{ID: 1, SrcDir: pl.im.dir, WorkDir: filepath.Join(base, "work"), Workload: crashlib.Workload{Cfg: c.W.Cfg, Keys: c.W.Keys}, Again: pl.job.Again}
 			ur := runBatch(base, []recoverJob{un.job})
 			if g := judge(ur[1], c.W.Keys, pl.runs, nil, nil, map[string]bool{}); g != nil {
 				p.rec.Count("foreign_uncut_image_already_fails", 1)
@@ -840,14 +878,14 @@ func (p *pipeline) runCase(c Case, fatal func(string, ...any)) {
 						ccls["cut_"+fileClass(nm)] = true
 					}
 					q := &planned{im: im2, runs: []crashlib.Run{pl.runs[0], run2}, cls: ccls, origin: origin, cut: desc}
-					q.job = recoverJob{ID: len(plan2) + 1, SrcDir: im2.dir, Cuts: cut, WorkDir: filepath.Join(base, "work"), Workload: crashlib.Workload{Cfg: c.W.Cfg, Keys: c.W.Keys}}
+					q.job = recoverJob{ID: len(plan2) + 1, SrcDir: im2.dir, Cuts: cut, WorkDir: filepath.Join(base, "work"), Workload: crashlib.Workload{Cfg: c.W.Cfg, Keys: c.W.Keys}, Again: len(plan2) % 2}
 					plan2 = append(plan2, q)
 					jobs2 = append(jobs2, q.job)
 				}
 				continue
 			}
 			q := &planned{im: im2, runs: []crashlib.Run{pl.runs[0], run2}, cls: cls, origin: origin}
-			q.job = recoverJob{ID: len(plan2) + 1, SrcDir: im2.dir, WorkDir: filepath.Join(base, "work"), Workload: crashlib.Workload{Cfg: c.W.Cfg, Keys: c.W.Keys}}
+			q.job = recoverJob{ID: len(plan2) + 1, SrcDir: im2.dir, WorkDir: filepath.Join(base, "work"), Workload: crashlib.Workload{Cfg: c.W.Cfg, Keys: c.W.Keys}, Again: 1 + len(plan2)%2}
 			plan2 = append(plan2, q)
 			jobs2 = append(jobs2, q.job)
 		}
@@ -865,7 +903,7 @@ func (p *pipeline) runCase(c Case, fatal func(string, ...any)) {
 			}
 			if q.cut != "" {
 				// C14's business only if the same nested image passes without the cut
-				uj := recoverJob{ID: 1, SrcDir: q.im.dir, WorkDir: filepath.Join(base, "work"), Workload: crashlib.Workload{Cfg: c.W.Cfg, Keys: c.W.Keys}}
+				uj := recoverJob{ID: 1, SrcDir: q.im.dir, WorkDir: filepath.Join(base, "work"), Workload: crashlib.Workload{Cfg: c.W.Cfg, Keys: c.W.Keys}, Again: q.job.Again}
 				ur := runBatch(base, []recoverJob{uj})
 				if g := judge(ur[1], c.W.Keys, q.runs, nil, nil, map[string]bool{}); g != nil {
 					p.rec.Count("foreign_uncut_image_already_fails", 1)
@@ -1038,7 +1076,7 @@ func crashTest(t *testing.T, prop string) {
 		}
 		fack := filepath.Join(p.scratch, "replay-fack.log")
 		_ = os.Remove(fack)
-		j := recoverJob{ID: 1, SrcDir: src, WorkDir: filepath.Join(p.scratch, "replay-work"), Workload: crashlib.Workload{Cfg: r.Cfg, Keys: r.Keys, Txns: r.Followup}, AckPath: fack}
+		j := recoverJob{ID: 1, SrcDir: src, WorkDir: filepath.Join(p.scratch, "replay-work"), Workload: crashlib.Workload{Cfg: r.Cfg, Keys: r.Keys, Txns: r.Followup}, AckPath: fack, Again: r.Again}
 		rr := runBatch(p.scratch, []recoverJob{j})
 		fb, _ := os.ReadFile(fack)
 		f := judge(rr[1], r.Keys, r.runs(), r.Followup, fb, map[string]bool{})
